@@ -56,12 +56,33 @@ def _flat_parts(e):
 
 
 def _prefix_before_first(fa, call, sep):
-    """Is the cut call used to take what PRECEDES the first `sep`:  s[:s.find(sep)],  s.partition(sep)[0],
+    """Is the cut call used to take what PRECEDES the first `sep`:  s[:s.find(sep)] — directly or through a local
+    (`cut = s.find(sep)` ... `s[:cut]`, the local otherwise only compared) —,  s.partition(sep)[0],
     s.split(sep[, n])[0],  head, _, _ = s.partition(sep) ?"""
     p = fa.pm.get(call)
     nm = call.func.attr
+
+    def upper_bound_of_prefix(node, par):
+        return isinstance(par, ast.Slice) and par.upper is node and (par.lower is None or (isinstance(par.lower, ast.Constant) and par.lower.value == 0)) and par.step is None
+
     if nm in ("find", "index"):
-        return isinstance(p, ast.Slice) and p.upper is call and (p.lower is None or (isinstance(p.lower, ast.Constant) and p.lower.value == 0)) and p.step is None
+        if upper_bound_of_prefix(call, p):
+            return True
+        if isinstance(p, ast.Assign) and p.value is call and len(p.targets) == 1 and isinstance(p.targets[0], ast.Name):
+            var = p.targets[0].id
+            stores = [n for n in A.walk_body(fa.node) if isinstance(n, ast.Name) and n.id == var and isinstance(n.ctx, ast.Store)]
+            if len(stores) != 1:
+                return False
+            cuts = 0
+            for n in A.walk_body(fa.node):
+                if isinstance(n, ast.Name) and n.id == var and isinstance(n.ctx, ast.Load):
+                    par = fa.pm.get(n)
+                    if upper_bound_of_prefix(n, par):
+                        cuts += 1
+                    elif not isinstance(par, ast.Compare):
+                        return False  # used for something else than the prefix cut and tests of its presence
+            return cuts > 0
+        return False
     if nm in ("partition", "split"):
         if isinstance(p, ast.Subscript) and p.value is call and isinstance(p.slice, ast.Constant) and p.slice.value == 0:
             return True
@@ -72,7 +93,31 @@ def _prefix_before_first(fa, call, sep):
             rest = {e.id for e in p.targets[0].elts[1:] if isinstance(e, ast.Name)}
             used = {n.id for n in A.walk_body(fa.node) if isinstance(n, ast.Name) and isinstance(n.ctx, ast.Load)}
             return head in used and not (rest & used - {head})
+        if isinstance(p, ast.Assign) and p.value is call and len(p.targets) == 1 and isinstance(p.targets[0], ast.Name):
+            # parts = s.split(sep, 1) ... parts[0] only
+            var = p.targets[0].id
+            loads = [n for n in A.walk_body(fa.node) if isinstance(n, ast.Name) and n.id == var and isinstance(n.ctx, ast.Load)]
+            return bool(loads) and all(isinstance(fa.pm.get(n), ast.Subscript) and fa.pm.get(n).value is n and isinstance(fa.pm.get(n).slice, ast.Constant)
+                                       and fa.pm.get(n).slice.value == 0 for n in loads)
     return False
+
+
+def _helper_units(ck, root, limit=8):
+    """A function with the helpers it was split into: its nested functions and the module-level functions of its own
+    module it refers to (a nested helper hoisted out, under whatever name), transitively.  -> [FuncInfo]"""
+    out, todo = [], [root]
+    while todo and len(out) < limit:
+        fi = todo.pop(0)
+        if any(fi is x for x in out):
+            continue
+        out.append(fi)
+        todo += list(fi.nested.values())
+        for n in A.walk_body(fi.node):
+            if isinstance(n, ast.Name) and isinstance(n.ctx, ast.Load) and n.id in fi.module.functions:
+                tgt = fi.module.functions[n.id]
+                if not any(tgt is x for x in out + todo):
+                    todo.append(tgt)
+    return out
 
 
 def _group_class(tree, gid):
@@ -127,13 +172,22 @@ def _top_shape(tree, groups):
         return "".join(chr(av) for (op, av) in s if op is sre_c.LITERAL)
     try:
         (o1, a1), (o2, a2), (o3, a3), (o4, a4), (o5, a5) = seq
+        named = set(groups.values())
+
+        def optional_items(a):
+            """The items of an optional part: those of its wrapping group (capturing or not — a non-capturing group
+            leaves no node of its own), the wrapper not being one of the four named groups."""
+            items = list(a[2])
+            if len(items) == 1 and items[0][0] is sre_c.SUBPATTERN and items[0][1][0] not in named:
+                items = list(items[0][1][3])
+            return items
+
         if o1 is not sre_c.MAX_REPEAT or a1[0] != 0 or a1[1] != 1:
             return None
-        outer = list(a1[2])
-        if len(outer) != 1 or outer[0][0] is not sre_c.SUBPATTERN:
-            return None
-        inner = list(outer[0][1][3])
+        inner = optional_items(a1)
         if inner[0][0] is not sre_c.SUBPATTERN or inner[0][1][0] != groups["cluster"]:
+            return None
+        if any(op is not sre_c.LITERAL for (op, av) in inner[1:]):
             return None
         d_cluster = lits(inner[1:])
         if o2 is not sre_c.SUBPATTERN or a2[0] != groups["module"]:
@@ -145,7 +199,7 @@ def _top_shape(tree, groups):
             return None
         if o5 is not sre_c.MAX_REPEAT or a5[0] != 0 or a5[1] != 1:
             return None
-        tail = list(list(a5[2])[0][1][3])
+        tail = optional_items(a5)
         d_version = lits(tail[:1])
         if tail[1][0] is not sre_c.SUBPATTERN or tail[1][1][0] != groups["version"] or len(tail) != 2:
             return None
@@ -228,9 +282,9 @@ def _check_asserts(ck, R, fi, env, label):
     return n
 
 
-def _regex_parser(ck, R1, pq, ms, anchor=None):
+def _regex_parser(ck, R1, pq, ms, anchor=None, flags=0):
     pat = A.const_str(ms[0].args[0])
-    tree = sre_parse.parse(pat)
+    tree = sre_parse.parse(pat, flags)
     groups = dict(tree.state.groupdict)
     for g in ("cluster", "module", "function", "version"):
         if g not in groups:
@@ -265,6 +319,16 @@ def _regex_parser(ck, R1, pq, ms, anchor=None):
                 if g is None or A.const_str(g) != A.const_str(k) or not (".match(" in A.norm(val) or ".fullmatch(" in A.norm(val)):
                     return False
             return True
+        if isinstance(v, ast.DictComp) and len(v.generators) == 1 and not v.generators[0].ifs and isinstance(v.generators[0].target, ast.Name) \
+                and isinstance(v.key, ast.Name) and v.key.id == v.generators[0].target.id:
+            # {name: match.group(name) for name in ('cluster', 'module', 'function', 'version')}
+            var = v.key.id
+            names = v.generators[0].iter
+            elts = names.elts if isinstance(names, (ast.Tuple, ast.List, ast.Set)) else None
+            val = v.value
+            g = val.args[0] if isinstance(val, ast.Call) and A.call_attr(val) == "group" and len(val.args) == 1 else val.slice if isinstance(val, ast.Subscript) else None
+            return elts is not None and sorted(A.const_str(x) or "?" for x in elts) == ["cluster", "function", "module", "version"] \
+                and isinstance(g, ast.Name) and g.id == var and (".match(" in A.norm(val) or ".fullmatch(" in A.norm(val))
         return False
     okg = bool(rets) and all(r.value is not None and _is_groups(r) for r in rets)
     ck.ob(R1, pq.key(None, "groupdict"), okg, "the parts are the named groups" if okg else "parse_qualified_name does not return match.groupdict()", pq.where())
@@ -590,7 +654,8 @@ def check_unresolvable_is_absent(ck, R3):
     gm = FA(ck, "storage_base.DataSourceMetadataSource.get_mementos")
     cls = gm.fi.cls
     ck.need(cls is not None, "get_mementos is not a method")
-    reader_names = ("_read_memento",) if "_read_memento" in cls.methods else ("decode_memento",)
+    # (the private reader — or the decoder itself where the reader's body was written out in place)
+    reader_names = ("_read_memento", "decode_memento")
     catching = {"FunctionNotFoundError", "ValueError", "Exception", "BaseException"}
     fnf = ck.repo.classes_named("FunctionNotFoundError")
     if fnf:
@@ -627,15 +692,114 @@ def check_unresolvable_is_absent(ck, R3):
               "FunctionNotFoundError escapes get_mementos: a stale entry makes every lookup of that call raise", fa.where(c))
 
 
+# ---- names that were stored are the names that are listed -----------------------------------------------------------
+FSDS = "storage_filesystem._FilesystemDataSource"
+_UNQUOTERS = ("unquote", "unquote_plus", "unquote_to_bytes")
+
+
+def _listing_units(ck, ls: FA, limit=12):
+    """The functions that make up the listing: list_keys_nonversioned itself, its nested generators and — when those
+    were hoisted out — every function of its class / module it refers to (called on the spot, or picked first
+    `walker = self._walk_flat` and called later), transitively.  -> [FuncInfo]"""
+    cls = ls.fi.cls
+    out, todo = [], [ls.fi]
+    while todo and len(out) < limit:
+        fi = todo.pop(0)
+        if any(fi is x for x in out):
+            continue
+        out.append(fi)
+        todo += list(fi.nested.values())
+        for n in A.walk_body(fi.node):
+            tgt = None
+            if isinstance(n, ast.Attribute) and isinstance(n.value, ast.Name) and isinstance(n.ctx, ast.Load) and cls is not None \
+                    and n.value.id in ("self", "cls", cls.node.name) and n.attr in cls.methods:
+                tgt = cls.methods[n.attr]
+            elif isinstance(n, ast.Name) and isinstance(n.ctx, ast.Load) and n.id in fi.module.functions:
+                tgt = fi.module.functions[n.id]
+            if tgt is not None and not any(tgt is x for x in out) and not any(tgt is x for x in todo):
+                todo.append(tgt)
+    return out
+
+
+def _escape_pairs(ek: FA):
+    """[(character, what it is written as)] of the key escape: `key.replace(a, b)` (possibly chained) or
+    `b.join(key.split(a))`; None when the escape is written another way."""
+    pairs = []
+    for r in ek.returns():
+        if r.value is None or not ek.nodes(r):
+            return None
+        e = ek.expand(r.value, ek.nodes(r)[0])
+        while True:
+            if isinstance(e, ast.Call) and A.call_attr(e) == "replace" and isinstance(e.func, ast.Attribute) and len(e.args) == 2 \
+                    and all(A.const_str(a) is not None for a in e.args):
+                pairs.append((A.const_str(e.args[0]), A.const_str(e.args[1])))
+                e = e.func.value
+                continue
+            if isinstance(e, ast.Call) and A.call_attr(e) == "join" and isinstance(e.func, ast.Attribute) and A.const_str(e.func.value) is not None \
+                    and len(e.args) == 1 and isinstance(e.args[0], ast.Call) and A.call_attr(e.args[0]) == "split" and len(e.args[0].args) == 1 \
+                    and A.const_str(e.args[0].args[0]) is not None and isinstance(e.args[0].func, ast.Attribute):
+                pairs.append((A.const_str(e.args[0].args[0]), A.const_str(e.func.value)))
+                e = e.args[0].func.value
+                continue
+            break
+        if not isinstance(e, ast.Name):
+            return None
+    return pairs or None
+
+
+def check_listing_inverts_escape(ck, R):
+    """Keys are written under an escaped file name (':' is not allowed on every file system); the listing turns the
+    file names back into keys.  The escape writes percent codes, so the listing has to undo exactly percent codes:
+    `unquote`.  `unquote_plus` also turns '+' into a blank, which the escape never wrote — a version such as
+    1.4.0+build.7 would be listed under another name than it was stored under."""
+    from urllib.parse import unquote as _uq
+    ls = FA(ck, FSDS + ".list_keys_nonversioned")
+    ek = FA(ck, FSDS + "._escape_key")
+    pairs = _escape_pairs(ek)
+    if pairs is None:
+        raise AnalysisError("%s: the key escape is neither a chain of replace(<char>, <code>) nor <code>.join(key.split(<char>))" % ek.qual)
+    oke = any(a == ":" for a, b in pairs) and all(len(a) == 1 and b != a and _uq(b) == a for a, b in pairs)
+    decoders = set()
+    for fi in _listing_units(ck, ls):
+        if fi is ek.fi:
+            continue
+        for c in A.body_calls(fi.node):
+            nm = A.call_attr(c)
+            if isinstance(c.func, ast.Name):
+                origin = fi.module.imports.get(c.func.id, "")
+                if ":" in origin:
+                    nm = origin.split(":")[-1]
+            if nm in _UNQUOTERS:
+                decoders.add(nm)
+    ok_inv = oke and decoders == {"unquote"}
+    ck.ob(R, ek.key(None, "escape"), ok_inv, "':' is escaped as a percent code that the listing decodes with unquote (the exact inverse)" if ok_inv else
+          "key escaping %s is not inverted exactly by the listing (decoders used: %s): names containing '+' (versions like 1.4.0+build.7) come back altered"
+          % ([list(p_) for p_ in pairs], sorted(decoders) or "none"), ek.where())
+
+
 def _pattern_literal(pq, e, depth=0):
-    """The pattern text an expression denotes: a literal, a local / module-level / class-level constant holding one,
-    or re.compile(<one of those>)."""
-    if depth > 5 or e is None:
+    """The pattern text an expression denotes, as a Constant node: a literal, a local / module-level / class-level
+    constant holding one, pieces of those glued with '+' / an f-string, or re.compile(<one of those>)."""
+    if depth > 8 or e is None:
         return None
     if A.const_str(e) is not None:
         return e
     if isinstance(e, ast.Call) and A.call_dotted(e) == "re.compile" and e.args:
         return _pattern_literal(pq, e.args[0], depth + 1)
+    if isinstance(e, (ast.BinOp, ast.JoinedStr)):
+        parts = A.str_parts(e)
+        if parts is None:
+            return None
+        txt = ""
+        for (k, v) in parts:
+            if k == "lit":
+                txt += v
+            else:
+                lit = _pattern_literal(pq, v, depth + 1)
+                if lit is None:
+                    return None
+                txt += A.const_str(lit)
+        return ast.copy_location(ast.Constant(value=txt), e)
     if isinstance(e, ast.Name):
         if pq.df.is_local(e.id):
             ds = [d for i in pq.nodes(e) for d in pq.df.reaching(i, e.id)]
@@ -650,6 +814,40 @@ def _pattern_literal(pq, e, depth=0):
     return None
 
 
+def _compile_call(pq, e, depth=0):
+    """The re.compile(...) call a compiled-pattern expression goes back to (through a local / module / class constant)."""
+    if depth > 5 or e is None:
+        return None
+    if isinstance(e, ast.Call) and A.call_dotted(e) == "re.compile":
+        return e
+    if isinstance(e, ast.Name):
+        if pq.df.is_local(e.id):
+            ds = [d for i in pq.nodes(e) for d in pq.df.reaching(i, e.id)]
+            return _compile_call(pq, ds[0].value, depth + 1) if len(ds) == 1 and ds[0].kind == "assign" else None
+        return _compile_call(pq, pq.fi.module.assigns.get(e.id), depth + 1)
+    if isinstance(e, ast.Attribute) and isinstance(e.value, ast.Name) and pq.fi.cls is not None and e.value.id in ("cls", "self", pq.fi.cls.node.name):
+        for st in pq.fi.cls.node.body:
+            if isinstance(st, ast.Assign) and any(isinstance(t, ast.Name) and t.id == e.attr for t in st.targets):
+                return _compile_call(pq, st.value, depth + 1)
+    return None
+
+
+def _regex_flags(e) -> int:
+    """The value of a flags expression spelled with the re module's names (re.VERBOSE | re.X | ...); 0 for none."""
+    import re as _re
+    if e is None:
+        return 0
+    if isinstance(e, ast.Constant) and isinstance(e.value, int):
+        return int(e.value)
+    if isinstance(e, ast.BinOp) and isinstance(e.op, ast.BitOr):
+        return _regex_flags(e.left) | _regex_flags(e.right)
+    if isinstance(e, ast.Attribute) and isinstance(e.value, ast.Name) and e.value.id == "re" and isinstance(getattr(_re, e.attr, None), _re.RegexFlag):
+        return int(getattr(_re, e.attr))
+    if isinstance(e, ast.Name) and isinstance(getattr(_re, e.id, None), _re.RegexFlag):
+        return int(getattr(_re, e.id))
+    raise AnalysisError("qualified-name pattern: cannot tell which flags `%s` are" % A.short(e, 40))
+
+
 def check_parser(ck, R1):
     pq = FA(ck, FR + ".parse_qualified_name")
     # re.match(<pattern>, name) / re.fullmatch(...) / <compiled pattern>.match(name), the pattern being a literal or
@@ -658,18 +856,21 @@ def check_parser(ck, R1):
     for c in pq.calls("match") + pq.calls("fullmatch"):
         if A.call_dotted(c) in ("re.match", "re.fullmatch"):
             lit = _pattern_literal(pq, c.args[0]) if c.args else None
+            flags = c.args[2] if len(c.args) > 2 else A.kwarg(c, "flags")
         else:
             lit = _pattern_literal(pq, A.call_recv(c))
+            cc = _compile_call(pq, A.call_recv(c))
+            flags = (cc.args[1] if len(cc.args) > 1 else A.kwarg(cc, "flags")) if cc is not None else None
         if lit is not None:
-            found.append((c, lit))
+            found.append((c, lit, flags))
     if len(found) == 1:
-        c, lit = found[0]
+        c, lit, flags = found[0]
         direct = A.call_dotted(c) in ("re.match", "re.fullmatch")
         if direct and c.args[0] is lit:
-            return _regex_parser(ck, R1, pq, [c])
+            return _regex_parser(ck, R1, pq, [c], flags=_regex_flags(flags))
         pseudo = ast.Call(func=c.func, args=[lit] + list(c.args[1:] if direct else c.args), keywords=[])
         ast.copy_location(pseudo, c)
-        return _regex_parser(ck, R1, pq, [pseudo], anchor=c)
+        return _regex_parser(ck, R1, pq, [pseudo], anchor=c, flags=_regex_flags(flags))
     return _partition_parser(ck, R1, pq)
 
 
@@ -738,13 +939,17 @@ def check(ck):
             ok3 = not any(i in after for (st_, v_, aug_) in writes if st_ not in tails for i in mi.nodes(st_))
         ck.ob(R2, mi.key(None, "module-function"), ok3, "unversioned name = module%sfunction qualname" % d_module if ok3 else
               "the unversioned name is no longer module + %r + qualname" % d_module, mi.where())
-        rs = ck.repo.func("code_hash.resolve_to_symbolic_names").nested.get("resolve_to_symbol")
-        # (when the nested helper was inlined into its only caller, the cut is looked for there)
-        rfa = FA(ck, rs if rs is not None else ck.repo.func("code_hash.resolve_to_symbolic_names"))
-        # the versioned qualified name of a dependency is reduced to what precedes its FIRST version delimiter
-        firsts, lasts = _cut_calls(list(A.walk_body(rfa.node)), d_version)
-        on_name = [c for c in firsts if rfa.nodes(c) and "qualified_name" in {n.attr for (n, a_) in flow_nodes(rfa, c.func.value, rfa.nodes(c)[0]) if isinstance(n, ast.Attribute)}]
-        okc = bool(on_name) and not lasts and all(_prefix_before_first(rfa, c, d_version) for c in firsts)
+        # the versioned qualified name of a dependency is reduced to what precedes its FIRST version delimiter — in
+        # resolve_to_symbolic_names or whichever helper of it does the cut (nested, or hoisted to module level)
+        units = [FA(ck, fi_) for fi_ in _helper_units(ck, ck.repo.func("code_hash.resolve_to_symbolic_names"))]
+        cuts = [(f_, _cut_calls(list(A.walk_body(f_.node)), d_version)) for f_ in units]
+        with_cut = [f_ for (f_, (fs_, ls_)) in cuts if fs_ or ls_]
+        nested = [f_ for f_ in units if f_.fi.name == "resolve_to_symbol"]
+        rfa = with_cut[0] if with_cut else nested[0] if nested else units[0]
+        firsts = [(f_, c) for (f_, (fs_, ls_)) in cuts for c in fs_]
+        lasts = [c for (f_, (fs_, ls_)) in cuts for c in ls_]
+        on_name = [c for (f_, c) in firsts if f_.nodes(c) and "qualified_name" in {n.attr for (n, a_) in flow_nodes(f_, c.func.value, f_.nodes(c)[0]) if isinstance(n, ast.Attribute)}]
+        okc = bool(on_name) and not lasts and all(_prefix_before_first(f_, c, d_version) for (f_, c) in firsts)
         ck.ob(R2, rfa.key(None, "cut-first-hash"), okc, "the symbolic name is cut at the first %r" % d_version if okc else
               "the symbolic dependency name is not cut at the first %r (a version containing it would leak into the name)" % d_version, rfa.where())
         # what is stored as the name without its cluster prefix is cut at the FIRST cluster delimiter
@@ -773,8 +978,8 @@ def check(ck):
                   "prefix, so the cluster is dropped from an external reference and qualified_name_without_cluster is cut inside the version"
                   % (A.short(n, 50), d_cluster, d_cluster), ini.where(n))
 
-    from .c05 import check_escape_inverse, check_strip_is_not_prefix_removal
-    ck.run(check_escape_inverse, ck, R2)
+    from .c05 import check_strip_is_not_prefix_removal
+    ck.run(check_listing_inverts_escape, ck, R2)
     ck.run(check_strip_is_not_prefix_removal, ck, R2)
     ck.run(check_cluster_name_validated, ck, R2, shape)
     from .c11 import check_reference_resolved_afresh
